@@ -44,6 +44,8 @@ pub struct TrkState {
     pub cloned: u64,
     pub dropped: u64,
     pub double: bool,
+    /// zero-sized tracked values alive (they carry no identity: only the count can be kept)
+    pub zlive: i64,
 }
 
 thread_local! {
@@ -99,6 +101,49 @@ impl Drop for Tracker {
                 }
             }
         });
+    }
+}
+
+/// A ZERO-SIZED value with a destructor: pointer-range loops and `size_of`-based fast paths treat such types specially.
+#[derive(Debug)]
+pub struct ZTr;
+const _: () = assert!(core::mem::size_of::<ZTr>() == 0);
+impl ZTr {
+    pub fn new() -> Self {
+        TRK.with(|t| {
+            let mut t = t.borrow_mut();
+            t.created += 1;
+            t.zlive += 1;
+        });
+        ZTr
+    }
+}
+impl Drop for ZTr {
+    fn drop(&mut self) {
+        let _ = TRK.try_with(|t| {
+            if let Ok(mut t) = t.try_borrow_mut() {
+                t.dropped += 1;
+                t.zlive -= 1;
+                if t.zlive < 0 {
+                    t.double = true;
+                }
+            }
+        });
+    }
+}
+
+/// what the static drop families are generic over
+pub trait Tracked: Sized {
+    fn make() -> Self;
+}
+impl Tracked for Tracker {
+    fn make() -> Self {
+        Tracker::new()
+    }
+}
+impl Tracked for ZTr {
+    fn make() -> Self {
+        ZTr::new()
     }
 }
 
